@@ -16,6 +16,7 @@ import (
 
 	"github.com/relex/gotils/logger"
 
+	"verifharness/internal/e2e"
 	"verifharness/internal/vkit"
 )
 
@@ -117,6 +118,7 @@ var anchors = []string{"run/reloadable.go", "run/reloader.go", "run/config.go", 
 	"base/multisinkmessagereceiver.go", "orchestrate/obykeyset/orchestrator.go"}
 
 func main() {
+	e2e.AgentProcMain() // never returns in an agent process
 	logger.SetLogLevel(logger.FatalLevel)
 	c := vkit.Start("C17", "exploration")
 	if c.Child != "" {
